@@ -5,24 +5,24 @@ V = os.path.dirname(os.path.dirname(os.path.abspath(__file__)))
 TECH = 'deterministic simulation with fault injection: seeded search over scenarios, schedules and fault plans on the real actor system under a harness-owned SimPy event loop'
 L = {
  'C01': ('online invariant after every SimPy event (open executions per machine from the spawn/exit log) under adversarial scheduling algorithms (F2), block permutation of concurrent allocation processes (F4), injected delays (F1) and stalls (F3); plus direct illegal allocations on the real Cluster', '4/C01'),
- 'C02': ('operation-sequence machine on the real Cluster checked against an executable reference model after every op and event (legal and illegal calls, F8), plus partition/counter invariants after every event of full simulations', '4/C02'),
+ 'C02': ('operation-sequence machine on the real Cluster checked against an executable reference model after every op and event (legal and illegal calls, F8), plus partition/counter invariants after every event of full simulations and the end-state clause at return, including runs whose (legal) user algorithm leaves the release of its reservation to the Scheduler (F9)', '4/C02'),
  'C03': ('history oracle over complete simulations: every DAG edge of the generated workflow is checked against recorded starts/finishes, allocation instants and machine bandwidths', '4/C03'),
- 'C04': ('exactly-once ledger built from the process spawn log, quiescence predicate at return, task-table rows vs executions; shipped and adversarial algorithms', '4/C04'),
+ 'C04': ('exactly-once ledger built from the process spawn log, quiescence predicate at return, task-table rows vs executions; shipped and adversarial algorithms; feasible runs that never complete (an observation never observed / a task never executed); sampled pause points', '4/C04'),
  'C05': ('bounded liveness: every feasible generated configuration must return from Simulation.start() before the analytic serial bound trips the event loop, without raising', '4/C05'),
  'C06': ('per-execution runtime oracle computed from the scenario physical values x unit factor; monotonicity on pairs of executions; injected and real delay models', '4/C06'),
  'C07': ('conservation ledger (deposits counted from ingest-stream resumes) compared with both tiers free space after every event; Buffer op-machine with rejected ingests', '4/C07'),
- 'C08': ('beginning-of-timestep snapshots replayed through the telescope pass in plan order for every observation start; caps after every event; ingest hold times from the ledger', '4/C08'),
- 'C09': ('online reservation invariants (pool of the target machine at each allocation, reservation count/size at creation, release) on batch-scheduling simulations; Cluster op-machine', '4/C09'),
- 'C10': ('differential: each scenario twice in one process and in three fresh interpreters with different PYTHONHASHSEED (F6); tables, event logs and harness event digests must agree', '4/C10'),
- 'C11': ('fault enumeration over pause points: every k in 1..T-1 (up to 45 per scenario) plus seeded multi-segment splits against an uninterrupted reference: state snapshots at every step, per-step table, task table, event log', '4/C11'),
+ 'C08': ('beginning-of-timestep snapshots replayed through the telescope pass in plan order for every observation start; caps after every event; ingest hold times from the ledger; admission queries of the real Buffer at the edge of its free space in seeded op sequences (admitted => room in both tiers after space owed to ingests and moves in flight)', '4/C08'),
+ 'C09': ('online reservation invariants (pool of the target machine at each allocation, reservation count/size at creation, release) on batch-scheduling simulations, reservation membership never grows, release also when left to the Scheduler (F9); Cluster op-machine', '4/C09'),
+ 'C10': ('differential: each scenario twice in one process and in three fresh interpreters with different PYTHONHASHSEED (F6); tables, event logs and harness event digests must agree; between the two in-process runs the same configuration with another delay degree (abandoned part-way) and an unrelated scenario run in the same interpreter; failures that need earlier simulations of the interpreter are replayed as a chain', '4/C10'),
+ 'C11': ('fault enumeration over pause points: every k in 1..T-1 (up to 45 per scenario) plus seeded multi-segment splits against an uninterrupted reference: state snapshots at every step, per-step table, task table, event log; the clock run on past the end of the work; refused start/resume calls leave state unchanged', '4/C11'),
  'C12': ('each row of the real monitor table compared column by column with the harness beginning-of-timestep snapshot and ledger', '4/C12'),
  'C13': ('life-cycle transitions derived from snapshots/spawn log compared with monitor.events (count, time, causal order), also on paused runs', '4/C13'),
- 'C14': ('plan read at hand-over to the scheduler inside simulated runs and compared with the generated DAG (ids, demands, edges, volumes, order, queries)', '4/C14'),
- 'C15': ('seeded sweep of the real DelayModel (all distributions/degrees/probabilities/runtimes incl. 0; same-process and fresh-process determinism) and flag/status propagation in simulations with injected and real delays', '4/C15'),
- 'C16': ('paired simulations of one physical configuration under unit k and under seconds: parsed initial state and trajectories (volumes, rate-limit outcome, task runtimes in seconds) must agree', '4/C16'),
+ 'C14': ('plan read at hand-over to the scheduler inside simulated runs and compared with the generated DAG (ids, demands, edges, volumes, order, queries), earlier plans re-queried after every later plan, direct planner calls at equal and repeated clocks', '4/C14'),
+ 'C15': ('seeded sweep of the real DelayModel (all distributions/degrees/probabilities/runtimes incl. 0; same-process and fresh-process determinism, other models evaluated in between, the same object asked again, numpy integer seeds) and flag/status propagation in simulations with injected and real delays', '4/C15'),
+ 'C16': ('paired simulations of one physical configuration under unit k and under seconds: parsed initial state and trajectories (volumes, rate-limit outcome, task runtimes in seconds) must agree; Config.parse_* called directly, twice on one object', '4/C16'),
  'C17': ('every execution compared with the machine recorded when the static plan became visible; contention from ingest and concurrent workflows, delays, stalls, permutations', '4/C17'),
  'C18': ('Buffer op-machine following every step of every move against a two-tier reference model (both directions, either tier slower, no-room refusals, round trips); moves observed in full simulations', '4/C18'),
- 'C19': ('all five idleness queries compared with ledger truth after every event of full simulations and after every op of the Cluster/Buffer op-machines', '4/C19'),
+ 'C19': ('all five idleness queries compared with ledger truth after every event of full simulations and after every op of the Cluster/Buffer op-machines, and at every event of paused and resumed runs', '4/C19'),
 }
 NOTE = {
  'C14': 'Caveat: the property is a function of (graph, name, clock); the simulator adds the real call path and clock values, no schedule dimension. ',
